@@ -35,8 +35,10 @@ static char cfgdesc[256];
 static struct { CH c[MAXL + 2]; size_t n; } M[2];     /* reference: explicit length, may contain NULs (resize fills with NUL) */
 
 /* literals */
-static const CH lit_[][6] = { { 0 }, { 'a', 0 }, { 'a', 'b', 0 }, { 'b', 'a', 0 }, { 'b', 'a', 'b', 'a', 0 }, { 'a', 'a', 0 }, { 'b', 0 }, { 'c', 0 } };
+static CH ch_a = 'a';                 /* the last configuration replaces 'a' by a character above 0x7f (narrow: 0xE9, negative as plain char; wide: U+0161) */
+static const CH lit0_[][6] = { { 0 }, { 'a', 0 }, { 'a', 'b', 0 }, { 'b', 'a', 0 }, { 'b', 'a', 'b', 'a', 0 }, { 'a', 'a', 0 }, { 'b', 0 }, { 'c', 0 } };
 #define NLIT_SET 5
+static CH lit_[8][6];
 static const char *litname[] = { "\"\"", "\"a\"", "\"ab\"", "\"ba\"", "\"baba\"", "\"aa\"", "\"b\"", "\"c\"" };
 
 /* position and count arguments */
@@ -57,12 +59,16 @@ enum { K_ABORT_POS, K_ABORT_GROWTH, K_CLAMPED, K_CLAMPED_HUGE, K_EMBEDDED_NUL, K
 static const char *w_counter_names[] = { "documented_abort_position_beyond_end", "abort_growth_unsatisfiable", "count_truncated_to_available", "count_truncated_huge_or_all_ones",
                                           "states_with_embedded_nul", "insert_of_string_object_containing_nul", "growth_beyond_capacity", "erase_or_substr_at_pos_eq_size", NULL };
 
-static int w_nconfigs(int thorough) { return thorough ? 3 : 2; }
+static int w_nconfigs(int thorough) { return thorough ? 4 : 3; }
 static void w_setup(int cfg, int thorough)
 {
     int p, c, k, ch;
+    int alt = cfg == (thorough ? 3 : 2), i, j;
     L = thorough ? (cfg == 0 ? 6 : cfg == 1 ? 5 : 4) : (cfg == 0 ? 4 : 3);
-    snprintf(cfgdesc, sizeof cfgdesc, "cstl_%s: two string objects, characters {a,b,NUL}, reference length <= %d, boundary positions and counts", WNAME, L);
+    if (alt) L = thorough ? 4 : 3;
+    ch_a = alt ? (sizeof(CH) == 1 ? (CH)0xE9 : (CH)0x0161) : (CH)'a';
+    for (i = 0; i < 8; i++) for (j = 0; j < 6; j++) lit_[i][j] = lit0_[i][j] == 'a' ? ch_a : lit0_[i][j];
+    snprintf(cfgdesc, sizeof cfgdesc, "cstl_%s: two string objects, characters {%s,b,NUL}, reference length <= %d, boundary positions and counts", WNAME, alt ? (sizeof(CH) == 1 ? "0xE9" : "U+0161") : "a", L);
     w_nops = 0;
     for (k = 0; k < NLIT_SET; k++) w_ops[w_nops++] = OP(O_SET, k, 0, 0);
     for (p = 0; p < NPOS; p++) for (c = 0; c < NCNT; c++) for (ch = 0; ch < 2; ch++) w_ops[w_nops++] = OP(O_INS_CH, p, c, ch);
@@ -145,7 +151,7 @@ static void w_apply(mc_op_t o)
     int code = OC(o), ab = 0, expect = E_OK, k;
     size_t size = M[0].n, pos = 0, cnt = 0;
     size_t cap0 = SF(capacity)(&S[0]);
-    CH ch = OD(o) ? 'b' : 'a';
+    CH ch = OD(o) ? 'b' : ch_a;
     CH fill[MAXL + 2];
     switch (code) {
     case O_SET:
@@ -274,7 +280,7 @@ static void w_audit(void)
             size_t fpos = j == 0 ? 0 : j == 1 ? 1 : j == 2 ? n - 1 : n; int c, l;
             if (j == 2 && n == 0) continue;
             for (c = 0; c < 3; c++) {
-                static volatile ssize_t r; const CH *f; CH want = (CH)("abc"[c]);
+                static volatile ssize_t r; const CH *f; CH want = c == 0 ? ch_a : (CH)("abc"[c]);
                 SHIM_CALL(ab, r = SF(find_ch)(s, want, fpos));
                 if (fpos >= n) { MC_CHECK(PC10, ab == 1, "string %d: find_ch at position %zu with size %zu must abort", k, fpos, n); continue; }
                 f = XCHR(M[k].c + fpos, want);
